@@ -268,7 +268,7 @@ func c16Relay(c *Ctx) {
 		CheckRedirect: func(*http.Request, []*http.Request) error { return http.ErrUseLastResponse }}
 
 	faults := []string{"none", "none", "none", "refuse", "close-accept", "close-after-request", "rst-after-request", "cut-head", "garbage-head", "cut-body", "cut-before-last-chunk", "stall", "cancel-before-head", "cancel-mid-body"}
-	n := c.N(len(faults)*22, len(faults)*400)
+	n := c.N(len(faults)*50, len(faults)*1200)
 	c.Cases("case", n, func(i int, r *rand.Rand) {
 		p := c16Plan{Fault: faults[i%len(faults)], NHeaders: r.IntN(11), RST: r.IntN(2) == 0}
 		p.Status = pick(r, []int{200, 200, 201, 202, 204, 301, 304, 400, 404, 418, 500, 502, 503, 504, 599})
